@@ -29,6 +29,11 @@
   type omits equal the chunk stream's current values (that IS the meaning of "same as the preceding
   chunk"). With that redundancy the wire bytes of an event do not depend on the sender state.
 
+  `newTs`/`step`/`run` take a flag `absExt`. `absExt = false` IS the specification and is what
+  `Conformant`, `specMessages`, `NoExtendedDelta`, `EndsComplete` use. `absExt = true` is a DEVIATING
+  reading ("an extended timestamp field is always an absolute time", what SRS and this library's
+  reader implement) kept only to state the known deviation K2 exactly (`messagesAbsExt`).
+
   One documented extension: librtmp starts chunk stream 2 with a type-1 header (its ping). `step`
   accepts that form as if the chunk stream had been started at timestamp 0 / message stream 0;
   `Strict` is the predicate without the extension.
